@@ -75,6 +75,9 @@ type HAProxyEndpointsRequest struct {
 	ManagedEndpoints []*HAProxyEndpointData
 }
 
+// RegexToMatchAnyMethod stands in place of the method for a filter that accepts every method
+const RegexToMatchAnyMethod string = "[^:]+"
+
 func BuildHAProxyEndpointsRequest(
 	policies *shared_config.PoliciesConfig,
 ) *HAProxyEndpointsRequest {
